@@ -143,7 +143,7 @@ fn op_generic<T: Tok + Serialize + DeserializeOwned>(op: &str, args: &[&str]) ->
             let x: T = parse_all(args)?;
             Some(match serde_json::to_string(&x) {
                 Ok(s) => format!("OK {}", show_hex(s.as_bytes())),
-                Err(_) => "ERR".into(),
+                Err(e) => crate::err_shown(&e),
             })
         }
         "json_rt" => {
@@ -161,7 +161,7 @@ fn op_generic<T: Tok + Serialize + DeserializeOwned>(op: &str, args: &[&str]) ->
                         (a, b, c) => format!("ROUTES-DISAGREE:text={}:reader={}:value={}", a.is_ok(), b.is_ok(), c.is_ok()),
                     }
                 }
-                Err(_) => "ERR".into(),
+                Err(e) => crate::err_shown(&e),
             })
         }
         "json_de" => {
@@ -171,7 +171,7 @@ fn op_generic<T: Tok + Serialize + DeserializeOwned>(op: &str, args: &[&str]) ->
             let text = json_text_of_tokens(args)?;
             Some(match serde_json::from_str::<T>(&text) {
                 Ok(y) => format!("OK {}", show(&y)),
-                Err(_) => "ERR".into(),
+                Err(e) => crate::err_shown(&e),
             })
         }
         _ => None,
@@ -253,20 +253,20 @@ fn amt_result<W: Serialize + DeserializeOwned>(w: &W, back: fn(W) -> String) -> 
         Ok(s) => {
             let a = match serde_json::from_str::<W>(&s) {
                 Ok(y) => back(y),
-                Err(_) => "ERR".to_string(),
+                Err(e) => crate::err_shown(&e),
             };
             let b = match serde_json::from_reader::<_, W>(s.as_bytes()) {
                 Ok(y) => back(y),
-                Err(_) => "ERR".to_string(),
+                Err(e) => crate::err_shown(&e),
             };
             let c = match serde_json::to_value(w).and_then(serde_json::from_value::<W>) {
                 Ok(y) => back(y),
-                Err(_) => "ERR".to_string(),
+                Err(e) => crate::err_shown(&e),
             };
             let r = if a == b && b == c { a } else { format!("ROUTES-DISAGREE:text={}:reader={}:value={}", a, b, c).replace(' ', "_") };
             format!("OK {} {}", show_hex(s.as_bytes()), r)
         }
-        Err(_) => "ERR".into(),
+        Err(e) => crate::err_shown(&e),
     }
 }
 fn one<A: Amt>(args: &[&str]) -> Option<A> {
@@ -341,7 +341,7 @@ pub fn run(op: &str, args: &[&str]) -> Option<String> {
                         format!("ROUTES-DISAGREE:text={}:reader={}:value={}", a.is_ok(), b.is_ok(), c.is_ok())
                     }
                 }
-                Err(_) => "ERR".to_string(),
+                Err(e) => crate::err_shown(&e),
             });
         }
         "json_str" => {
